@@ -424,7 +424,7 @@ def resolve_anchor(text: str, a: rsitems.FnAnatomy, anchor: str, item_path: str)
   raise Undecided('%s: anchor %s: no statement end' % (item_path, anchor))
 
 
-def build_unit(name: str, variant: Optional[str] = None) -> UnitBuild:
+def build_unit(name: str, variant: Optional[str] = None, canary: bool = False) -> UnitBuild:
   cfg = load_unit_cfg(name)
   d = cfg['dir']
   cfile = 'contracts.vrs' if not variant else 'contracts.%s.vrs' % variant
@@ -434,6 +434,10 @@ def build_unit(name: str, variant: Optional[str] = None) -> UnitBuild:
     over = parse_contracts(os.path.join(d, cfile))
     if not over: raise Undecided('unit %s: variant %s has no contracts' % (name, variant))
     contracts.update(over)
+  if canary:
+    for c in contracts.values():
+      if c.spec.strip() and not any('external_body' in at for at in c.attrs):
+        c.proofs.insert(0, ('body_start', '  proof { assert(false); } // vacuity canary'))
   prelude = open(os.path.join(d, 'prelude.rs'), encoding='utf-8').read() if os.path.exists(os.path.join(d, 'prelude.rs')) else ''
   spec = open(os.path.join(d, 'spec.rs'), encoding='utf-8').read() if os.path.exists(os.path.join(d, 'spec.rs')) else ''
   if variant and os.path.exists(os.path.join(d, 'spec.%s.rs' % variant)):
@@ -510,7 +514,7 @@ def build_unit(name: str, variant: Optional[str] = None) -> UnitBuild:
     for at in c.attrs:
       if _ASSUME_PAT.search(at):
         assumptions.append('%s/%s: %s on %s' % (name, cfile, at, c.path))
-  out_dir = os.path.join(BUILD, 'vx', name + ('' if not variant else '.' + variant))
+  out_dir = os.path.join(BUILD, 'vx', name + ('' if not variant else '.' + variant) + ('.canary' if canary else ''))
   os.makedirs(out_dir, exist_ok=True)
   path = os.path.join(out_dir, 'unit.rs')
   with open(path, 'w', encoding='utf-8') as f: f.write(text)
@@ -712,6 +716,20 @@ def run_verus(ub: UnitBuild, extra_args: Optional[List[str]] = None, timeout: in
   ok = (p.returncode == 0 and js is not None and js['verification-results'].get('success') and not failures and not fe)
   return VerusResult(unit=ub.name, ok=bool(ok), verified=verified, errors=errors, failures=failures, frontend_errors=fe,
                      rlimit=rl, functions=funcs, wall_s=wall, smt_ms=smt_ms, cmd=' '.join(cmd), raw_stderr=p.stderr)
+
+
+def run_canaries(ub0: UnitBuild, name: str, variant: Optional[str]) -> dict:
+  """vacuity guard: `assert(false)` spliced at the start of every contracted function's body must FAIL;
+  where it verifies the function's precondition is contradictory and its proof says nothing"""
+  ub = build_unit(name, variant, canary=True)
+  r = run_verus(ub, extra_args=ub.cfg.get('verus_args', []) + ['--multiple-errors', '1'])
+  if r.frontend_errors:
+    raise Undecided('canary build failed: %s' % r.frontend_errors[0][:300])
+  want = [p for p, c in ub.contracts.items() if c.spec.strip() and not any('external_body' in at for at in c.attrs)
+          and p in ub.fn_tags and p not in ub.cfg.get('no_canary', [])]
+  failed = {f.function for f in r.failures if f.kind == 'assert' and 'false' in f.clause}
+  vac = [p for p in want if p not in failed]
+  return {'checked': len(want), 'vacuous': vac, 'cmd': r.cmd + '   # canary run: assert(false) at the start of every contracted body'}
 
 
 def _enclosing_spec_fn(ub: UnitBuild, byte_off: int) -> str:
